@@ -331,6 +331,17 @@ class Ctx:
         hits = scan_forbidden(module_closure(list(theorems_by_module.keys()) + list(modules)))
         if hits:
             self.proof_broken("source-scan", "\n".join(hits))
+        # thorough tier: independent re-check of the compiled property modules
+        if self.tier == "thorough" and br.ok:
+            t0 = time.time()
+            try:
+                p = subprocess.run(["lake", "env", "leanchecker"] + list(theorems_by_module.keys()), cwd=LEAN,
+                                   stdout=subprocess.PIPE, stderr=subprocess.STDOUT, text=True, timeout=3000)
+                self.note("leanchecker", {"rc": p.returncode, "wall_s": round(time.time() - t0, 1), "tail": p.stdout[-300:]})
+                if p.returncode != 0:
+                    self.proof_broken("leanchecker", p.stdout[-2000:])
+            except subprocess.TimeoutExpired:
+                self.note("leanchecker", "timeout")
         self.cov["discharged"] = discharged
         self.cov["axioms_seen"] = sorted(axioms_seen)
         self.cov["theorems"] = [t for v in theorems_by_module.values() for t in v]
